@@ -66,6 +66,33 @@ def has_blank_continuation(v):
     return False
 
 
+ORIGINS = ["empty", "empty-str", "empty-lines", "comments-only", "dict", "parsed", "parsed-lines", "copy", "iter", "dsc"]
+
+
+def make_paragraph(origin):
+    """The paragraph under test, reached in every way the API offers (validation must not depend on it)."""
+    text = "A: 1\nK: old\n more\nZ: 9\n"
+    if origin in ("empty", "empty-str", "empty-lines", "comments-only"):
+        d = {"empty": lambda: Deb822(), "empty-str": lambda: Deb822(""), "empty-lines": lambda: Deb822([]),
+             "comments-only": lambda: Deb822("# nothing here\n\n")}[origin]()
+        d["A"] = "1"
+        d["K"] = "old\n more"
+        d["Z"] = "9"
+        return d
+    if origin == "dict":
+        return Deb822({"A": "1", "K": "old\n more", "Z": "9"})
+    if origin == "parsed":
+        return Deb822(text)
+    if origin == "parsed-lines":
+        return Deb822(text.split("\n")[:-1])
+    if origin == "copy":
+        return Deb822(text).copy()
+    if origin == "iter":
+        return list(Deb822.iter_paragraphs("X: 0\n\n" + text))[1]
+    from debian.deb822 import Dsc
+    return Dsc(text)
+
+
 def h_value(params, x: str):
     shape = params["shape"]                  # e.g. "xNx": N = newline, x = symbolic non-newline char
     nx = shape.count("x")
@@ -83,10 +110,7 @@ def h_value(params, x: str):
             v = v + x[k]
             k += 1
     key = params["key"]
-    d = Deb822()
-    d["A"] = "1"
-    d["K"] = "old\n more"
-    d["Z"] = "9"
+    d = make_paragraph(params.get("origin", "empty"))
     before = d.dump()
     names = ["A", "K", "Z"] + ([key] if key not in ("A", "K", "Z") else [])
     try:
@@ -195,4 +219,8 @@ def partitions(tier, seed):
                 P.append(dict(name="value/%s/%s" % (shape or "empty", key), harness="h_value", params=dict(shape=shape, key=key),
                               budget=60 if q else 900, reach=[],
                               bounds="value of shape %r (N=newline, x=any of printable ASCII/tab/CR) assigned to %s" % (shape, key)))
+    for origin in ORIGINS[1:]:
+        for shape in (("xNx", "xNNx", "xN") if q else ("xNx", "xNNx", "xN", "N", "xNxNx", "NxNx", "xx")):
+            P.append(dict(name="origin/%s/%s" % (origin, shape), harness="h_value", params=dict(shape=shape, key="K", origin=origin),
+                          budget=60 if q else 600, reach=[], bounds="paragraph obtained as %r, value of shape %r assigned to K" % (origin, shape)))
     return P
